@@ -344,6 +344,35 @@ func runSchedTest(t *testing.T, sp schedSpec) {
 				}
 			}
 			actions = genActions(rt, n)
+			if pct(rt, 35, "template.stale") {
+				// the stale-validation schedule: one command is stopped in the window before it
+				// takes the lock (whatever it has read by then may be stale), every other command
+				// runs to completion, then the stopped one goes on
+				a := uni(rt, n, "stale.who")
+				pts := w.parkCandidates(cmds[a].Op)
+				var pre []Inject
+				for i, p := range pts {
+					if p.Syscall == "flock" {
+						pre = pts[:i]
+						break
+					}
+				}
+				if len(pre) > 0 {
+					for i := range cmds {
+						cmds[i].Park = nil
+					}
+					p := pre[uni(rt, len(pre), "stale.at")]
+					cmds[a].Park = &p
+					actions = []SchedAction{{"start", a}}
+					for i := range cmds {
+						if i != a {
+							actions = append(actions, SchedAction{"start", i})
+						}
+					}
+					actions = append(actions, SchedAction{"resume", a}, SchedAction{"resume", a})
+					stats.Label("schedule.stale_validation_template")
+				}
+			}
 			sr := w.runSchedule(cmds, actions)
 			cmds = sr.cmds
 			growth = sr.growth
@@ -413,7 +442,7 @@ func TestC01(t *testing.T) {
 	runSchedTest(t, schedSpec{
 		prop: "C01", test: "TestC01",
 		rule:   "a generated store (short random history) and 2-4 concurrent commands - mostly `claim` (with / without --epic) plus disturbers that reopen, finish, move or create tasks (`set`, `new task`, `prune --yes`) -, each optionally parked by the controller right after a drawn system call on the store's files (strace SIGSTOP injection) and resumed at a drawn later moment, or all free-running; oracle: some serial order consistent with real time in which every successful claim returns the model's oldest ready task at that position and the final state matches, lock-busy claims contribute nothing, no id is handed out twice; non-trivial = executions overlap and at least one park landed (or free-running); distinct = (commands, park points, controller schedule)",
-		genOps: genClaimRace, minN: 2, maxN: 4, setup: claimSetup, bigLogPct: 8,
+		genOps: genClaimRace, minN: 2, maxN: 4, setup: claimSetup, bigLogPct: 14,
 		extra: func(pre, final *Snapshot, cmds []ConcCmd) []string {
 			var out []string
 			seen := map[string]int{}
@@ -449,7 +478,7 @@ func TestC02(t *testing.T) {
 	runSchedTest(t, schedSpec{
 		prop: "C02", test: "TestC02",
 		rule:  "a generated store and 2-4 concurrent commands drawn from {new task, new epic, set, claim, claim <id>, sequence, sequence rm, plan, prune --yes, compact, init}, each optionally parked right after a drawn system call on the store's files and resumed at a drawn later moment (or free-running); oracle: linearizability against the reference model (replies and final state explained by some serial order of the acknowledged commands consistent with real time; failed commands, lock busy included, contribute nothing), the log is whole JSON lines, and no command fails to return while another is parked; non-trivial = executions overlap and at least one park landed (or free-running); distinct = (commands, park points, controller schedule)",
-		kinds: mixedKinds, minN: 2, maxN: 4, setup: setupProfile, bigLogPct: 8,
+		kinds: mixedKinds, minN: 2, maxN: 4, setup: setupProfile, bigLogPct: 14,
 	})
 }
 
